@@ -7,8 +7,8 @@ import QipVerif.Props.C14
 `pulses_product` chains the MODEL functions of C12 (`Concat.schedule`, `Concat.groupPulses`, `Concat.compileS
 Gen.concatSrc`) and C14 (`Grid.fullCoeffsV true`, `Grid.slices`, `Grid.runAnalytically`) on a rational spin-chain
 instruction list and proves that the product of the slice exponentials equals the product of the instructions' ideal
-propagators (`instrPropExp`) in scheduled order.  It uses the theorems `C12.compile_source_channels`,
-`C12.compile_source_end_to_end`, `C14.fullCoeffs_eq_repaired` and `Compose.channels_sliceProd`.
+propagators (`instrPropExp`) in scheduled order.  It uses the theorems `C12.compile_source_channels_scalar`,
+`C12.compile_source_end_to_end_scalar`, `C14.fullCoeffs_eq_repaired` and `Compose.channels_sliceProd`.
 -/
 set_option linter.unusedSectionVars false
 namespace QipVerif.SpinChain
@@ -265,9 +265,13 @@ theorem pulses_product (circular : Bool) (N : ℕ) (enc : String × Int → ℕ)
     rw [hkept]; exact hs
   have hne' : Concat.keptInstrs Gen.concatSrc.cat.dropZero (isQ.map (toC enc)) ≠ [] := by
     rw [hkept]; simpa using hne
-  obtain ⟨hnd, hgs, _⟩ := C12.compile_source_channels (isQ.map (toC enc)) sch cis st groups hne' hs' hg
-  obtain ⟨pm, final, ms, hms, _, hcompile⟩ := C12.compile_source_end_to_end (isQ.map (toC enc)) sch cis st groups
-    hne' hs' hg hgn (fun g hgm => Concat.Chain.chainR hthr (Concat.ValidG.chain (hvalid g hgm)))
+  have hsc : ∀ i ∈ isQ.map (toC enc), ∃ t, i.tl = .scalar t := by
+    intro i hi
+    obtain ⟨j, _, rfl⟩ := List.mem_map.mp hi
+    exact ⟨_, rfl⟩
+  obtain ⟨hnd, hgs, _⟩ := C12.compile_source_channels_scalar (isQ.map (toC enc)) sch cis st groups hsc hne' hs' hg
+  obtain ⟨pm, final, ms, hms, _, hcompile⟩ := C12.compile_source_end_to_end_scalar (isQ.map (toC enc)) sch cis st groups
+    hsc hne' hs' hg hgn (fun g hgm => Concat.Chain.chainR hthr (Concat.ValidG.chain (hvalid g hgm)))
   have hchan : ∀ g ∈ groups, g.2 = chanJ g.1 J := by
     intro g hgm
     rw [(hgs g hgm).2, hzip, chanOf_map_toInstr]
